@@ -27,11 +27,12 @@ type Con struct {
 	Methods    []Meth
 	Insts      []*Ty // some type arguments that satisfy the constraint
 	Feat       string
+	MinLen     int // smallest array length among the terms (large when there is no array)
 }
 
 // termsCon computes the operator classes of a union of terms.
 func termsCon(terms []*Ty, tilde []bool) *Con {
-	c := &Con{Terms: terms, Ordered: true, Numeric: true, Integer: true, Addable: true, Comparable: true, Nillable: true, Lenable: true, Capable: true, Stringish: true, Core: true}
+	c := &Con{MinLen: 1 << 20, Terms: terms, Ordered: true, Numeric: true, Integer: true, Addable: true, Comparable: true, Nillable: true, Lenable: true, Capable: true, Stringish: true, Core: true}
 	var parts []string
 	allNum, allStr := true, true
 	for i, t := range terms {
@@ -47,7 +48,7 @@ func termsCon(terms []*Ty, tilde []bool) *Con {
 		c.Integer = c.Integer && k == KInt
 		allNum = allNum && (k == KInt || k == KFloat || k == KComplex)
 		allStr = allStr && k == KString
-		c.Comparable = c.Comparable && t.comparable()
+		c.Comparable = c.Comparable && t.comparable() && !t.hasIface(0)
 		c.Nillable = c.Nillable && t.nillable()
 		lenable := k == KString || k == KSlice || k == KArray || k == KMap || k == KChan || k == KPtr && u.Elem.kind() == KArray
 		c.Lenable = c.Lenable && lenable
@@ -73,8 +74,10 @@ func termsCon(terms []*Ty, tilde []bool) *Con {
 			e = u.Elem
 		case u.K == KArray:
 			e, isArr = u.Elem, true
+			c.MinLen = min(c.MinLen, u.Len)
 		case u.K == KPtr && u.Elem.kind() == KArray:
 			e, isArr = u.Elem.u().Elem, true
+			c.MinLen = min(c.MinLen, u.Elem.u().Len)
 		case u.K == KString:
 			e = tByte
 		}
@@ -235,7 +238,10 @@ func (g *gen) constraint() *Con {
 		}
 	case 16:
 		feat = "con_named_terms"
-		t := g.namedType(func(t *Ty) bool { return !t.Generic && t.Under != nil && t.Under.K != KIface && t.Under.K != KTParam })
+		t := g.namedType(func(t *Ty) bool { return !t.Generic && t.Under != nil && t.Under.K != KIface && t.Under.K != KTParam }, 0, 1, 2, 9)
+		if t.Generic || t.Under == nil || t.Under.K == KIface {
+			t = tInt
+		}
 		add(t, false)
 		if g.flip("second") {
 			add(pick(g, "namedsecond", tInt, tString, sliceOf(tInt)), false)
@@ -338,10 +344,10 @@ func (g *gen) tpOperand(tp *Ty, allowZero bool) string {
 				return v
 			}
 		}
-	case 1:
+	case 1, 3:
 		if allowZero {
 			g.feat("tparam_new_zero")
-			return "*new(" + tp.Name + ")"
+			return "(*new(" + tp.Name + "))"
 		}
 	case 2:
 		if len(tp.Con.Consts) > 0 {
@@ -359,7 +365,7 @@ func (g *gen) tpOperand(tp *Ty, allowZero bool) string {
 	if len(ps) > 0 {
 		return ps[g.intn(0, len(ps)-1, "tpparam")]
 	}
-	return "*new(" + tp.Name + ")"
+	return "(*new(" + tp.Name + "))"
 }
 
 // tpCond draws a boolean condition over values of the type parameter.
@@ -417,26 +423,26 @@ func (g *gen) tpStmt(tp *Ty, ptrResult bool) string {
 	}
 	forms := []form{
 		{!g.sc.noZero, func() string { n := g.fresh("z"); g.sc.add(n, tp); return "var " + n + " " + g.ts(tp) + "\n\t_ = " + n }},
-		{true, func() string { n := g.fresh("v"); g.sc.add(n, tp); return n + " := " + x() + "\n\t_ = " + n }},
+		{true, func() string { n := g.fresh("v"); e := x(); g.sc.add(n, tp); return n + " := " + e + "\n\t_ = " + n }},
 		{true, func() string { return "_ = any(" + x() + ")" }},
 		{true, func() string { g.feat("tparam_composite"); return "_ = []" + tp.Name + "{" + x() + ", " + x() + "}" }},
 		{true, func() string {
 			g.feat("tparam_composite")
 			return "_ = " + pick(g, "tpcomposite", "struct{ v "+tp.Name+" }{"+x()+"}", "[1]"+tp.Name+"{"+x()+"}", "map[string]"+tp.Name+"{\"k\": "+x()+"}", "&[]"+tp.Name+"{"+x()+"}", "[]*"+tp.Name+"{new("+tp.Name+")}", "[][]"+tp.Name+"{{"+x()+"}, {}}")
 		}},
-		{true, func() string { n := g.fresh("q"); g.sc.add(n, ptrTo(tp)); return n + " := &" + v() + "\n\t*" + n + " = " + x() + "\n\t_ = " + n }},
+		{true, func() string { n := g.fresh("q"); e, e2 := v(), x(); g.sc.add(n, ptrTo(tp)); return n + " := &" + e + "\n\t*" + n + " = " + e2 + "\n\t_ = " + n }},
 		{true, func() string { return "fmt." + pick(g, "print", "Println(", "Printf(\"%v %d %s\\n\", 1, ", "Print(", "Sprint(") + x() + ")" }},
 		{true, func() string {
 			g.feat("tparam_type_switch")
 			n := g.fresh("y")
 			return "switch " + n + " := any(" + x() + ").(type) {\n\tcase " + pick(g, "tscase", "int, string", "nil", tp.Name, "*"+tp.Name, "error", "interface{ M() }") + ":\n\t\t_ = " + n + "\n\tcase []" + tp.Name + ":\n\t}"
 		}},
-		{true, func() string { return "if " + g.tpCond(tp, ptrResult) + " {\n\t\t" + g.returnStmt() + "\n\t}" }},
-		{true, func() string { return "if " + g.tpCond(tp, ptrResult) + " {\n\t\t" + v() + " = " + x() + "\n\t} else if " + g.tpCond(tp, ptrResult) + " {\n\t\t" + g.returnStmt() + "\n\t}" }},
-		{true, func() string { return "for " + g.tpCond(tp, ptrResult) + " {\n\t\t" + pick(g, "loopexit", "break", g.returnStmt(), v()+" = "+x()+"\n\t\tbreak") + "\n\t}" }},
+		{true, func() string { return "if " + hdr(g.tpCond(tp, ptrResult)) + " {\n\t\t" + g.returnStmt() + "\n\t}" }},
+		{true, func() string { return "if " + hdr(g.tpCond(tp, ptrResult)) + " {\n\t\t" + v() + " = " + x() + "\n\t} else if " + hdr(g.tpCond(tp, ptrResult)) + " {\n\t\t" + g.returnStmt() + "\n\t}" }},
+		{true, func() string { return "for " + hdr(g.tpCond(tp, ptrResult)) + " {\n\t\t" + pick(g, "loopexit", "break", g.returnStmt(), v()+" = "+x()+"\n\t\tbreak") + "\n\t}" }},
 		{c.Comparable, func() string {
 			g.feat("tparam_switch")
-			return "switch " + x() + " {\n\tcase " + g.tpOperand(tp, false) + ":\n\t\t" + g.returnStmt() + "\n\t}"
+			return "switch " + hdr(x()) + " {\n\tcase " + g.tpOperand(tp, false) + ":\n\t\t" + g.returnStmt() + "\n\t}"
 		}},
 		{c.Comparable, func() string { g.feat("tparam_map_key"); return "_ = map[" + tp.Name + "]int{" + g.tpOperand(tp, false) + ": 1}" }},
 		{c.Ordered, func() string {
@@ -467,11 +473,11 @@ func (g *gen) tpStmt(tp *Ty, ptrResult bool) string {
 		{c.Integer, func() string { return v() + " = ^" + x() + pick(g, "shiftc", " << 1", " >> 2", "") }},
 		{c.Lenable, func() string { return "_ = len(" + x() + ")" }},
 		{c.Capable, func() string { return "_ = cap(" + x() + ")" }},
-		{c.IndexElem != nil, func() string {
+		{c.IndexElem != nil && c.MinLen >= 2, func() string {
 			g.feat("tparam_index")
 			return "if len(" + v() + ") > 0 {\n\t\t_ = " + v() + "[0]\n\t}"
 		}},
-		{c.IndexElem != nil && !c.Stringish && !hasString(c), func() string {
+		{c.IndexElem != nil && c.MinLen >= 2 && !c.Stringish && !hasString(c), func() string {
 			g.feat("tparam_index_store")
 			w := v()
 			return "if len(" + w + ") > 1 {\n\t\t" + w + "[1] = " + w + "[0]\n\t}"
@@ -497,7 +503,7 @@ func (g *gen) tpStmt(tp *Ty, ptrResult bool) string {
 		}},
 		{c.Core && len(c.Terms) > 0 && (c.Terms[0].kind() == KSlice || c.Terms[0].kind() == KMap || c.Terms[0].kind() == KArray || c.Terms[0].kind() == KChan || c.Terms[0].kind() == KString), func() string {
 			g.feat("tparam_core_range")
-			return "for range " + x() + " {\n\t\tbreak\n\t}"
+			return "for range " + hdr(x()) + " {\n\t\tbreak\n\t}"
 		}},
 		{c.Core && len(c.Terms) > 0 && (c.Terms[0].kind() == KSlice || c.Terms[0].kind() == KMap || c.Terms[0].kind() == KChan), func() string {
 			g.feat("tparam_core_make")
@@ -513,6 +519,11 @@ func (g *gen) tpStmt(tp *Ty, ptrResult bool) string {
 		if f.ok {
 			ok = append(ok, f)
 		}
+	}
+	// the conditional forms (indexes 8-10) carry the operator classes into branch conditions,
+	// which is what the flow-sensitive analyses look at: they get a third of the draws
+	if g.chance(33, "condstmt") {
+		return forms[8+g.intn(0, 2, "condform")].f()
 	}
 	return ok[g.intn(0, len(ok)-1, "tpstmt")].f()
 }
@@ -599,7 +610,7 @@ func (g *gen) genericFunc() {
 			ps = append(ps, pn+" "+g.ts(pt))
 		}
 		var lines []string
-		for i, n := 0, g.intn(1, 6, "nstmts"); i < n; i++ {
+		for i, n := 0, g.intn(2, 10, "nstmts"); i < n; i++ {
 			if tp2 != nil && g.chance(30, "stmt_u") && hasVar(sc, tp2) {
 				lines = append(lines, g.tpStmt(tp2, ptrResult))
 				continue
